@@ -95,6 +95,8 @@ def cat(op, inputs, dim=0):
             and t2.axis is None
             and torch.equal(t1._scale, t2._scale)
             and t1.qtype == t2.qtype
+            # (torch.equal does not compare dtypes: concatenating different float dtypes promotes them)
+            and t1.dtype == t2.dtype
         ):
             if t1.qtype.is_floating_point or t2.qtype.is_floating_point:
                 # Cat is not supported for float8
@@ -294,6 +296,7 @@ def stack(op, inputs, dim=0):
             and t2.axis is None
             and torch.equal(t1._scale, t2._scale)
             and t1.qtype == t2.qtype
+            and t1.dtype == t2.dtype
         ):
             out_data = op([t1._data, t2._data], dim)
             return QBytesTensor(t1.qtype, t1.axis, out_data.size(), out_data.stride(), out_data, t1._scale)
